@@ -16,6 +16,16 @@ pub fn verif_root() -> String {
     std::env::var("VERIF_ROOT").unwrap_or_else(|_| "/verif".to_string())
 }
 
+/// What a dead worker's status means. Exit status 86 is the memory seam ending a library
+/// call that had made more than 100000 intercepted system calls (bounded liveness).
+pub fn describe_death(how: &str) -> String {
+    if how.contains("Some(86)") {
+        format!("worker process ended by the simulator ({}): the call in flight made more than 100000 lock/protect/advise requests without returning — no progress", how)
+    } else {
+        format!("worker process died ({}) while this event was in flight", how)
+    }
+}
+
 pub fn abort_check(prop: &str) -> Option<&'static str> {
     match prop {
         "C04" => Some("c04.abort"),
@@ -317,7 +327,7 @@ pub fn exec_in_child<W: World>(rf: &ReplayFile, tmp_path: &str, trace: bool) -> 
                 (Ok(c), Some(Ok(e))) => W::crash_site(&c, &e),
                 _ => Site::new(),
             };
-            v.push(Violation { property: rf.property.clone(), check: chk.to_string(), site, step, detail: format!("worker process died ({}) while this event was in flight", how) });
+            v.push(Violation { property: rf.property.clone(), check: chk.to_string(), site, step, detail: describe_death(how) });
         }
     }
     (v, co)
@@ -446,7 +456,7 @@ pub fn run_leg<W: World>(leg: &Leg, a: &CheckArgs) -> LegResult {
                         run,
                         config: co.config.clone().unwrap_or(serde_json::Value::Null),
                         events: co.events.clone(),
-                        violation: Violation { property: a.prop.clone(), check: chk.to_string(), site, step, detail: format!("worker process died ({}) while this event was in flight", how) },
+                        violation: Violation { property: a.prop.clone(), check: chk.to_string(), site, step, detail: describe_death(how) },
                     });
                 }
                 (Some(how), None) => lr.harness_errors.push(format!("worker died ({}) in run {} of world {}; crash-freedom is judged by C04/C14/C19, not {}", how, run, W::NAME, a.prop)),
